@@ -170,7 +170,9 @@ def apply_png_predictor(
     nbytes = colors * columns * bitspercomponent // 8
     bpp = colors * bitspercomponent // 8  # number of bytes per complete pixel
     buf = []
-    line_above = list(b"\x00" * columns)
+    # the row above the first row is all zeros and as long as a row (not `columns`:
+    # a row has `colors` samples per column)
+    line_above = list(b"\x00" * nbytes)
     for scanline_i in range(0, len(data), nbytes + 1):
         filter_type = data[scanline_i]
         line_encoded = data[scanline_i + 1 : scanline_i + 1 + nbytes]
